@@ -791,6 +791,20 @@ htp_status_t htp_connp_RES_BODY_DETERMINE(htp_connp_t *connp) {
  * @param[in] connp
  * @returns HTP_OK on state change, HTP_ERROR on error, or HTP_DATA when more data is needed.
  */
+/**
+ * Determines if the LF that was just read is the first byte of the current chunk
+ * and completes a CRLF whose CR ended the previous chunk (and was buffered).
+ * Such a LF ends the line just as it does when both bytes arrive together.
+ *
+ * @param[in] connp
+ * @return 1 if the LF completes a CRLF split across chunks, 0 otherwise.
+ */
+static int htp_connp_res_lf_completes_crlf(htp_connp_t *connp) {
+    return (connp->out_current_read_offset - connp->out_current_consume_offset == 1)
+            && (connp->out_buf != NULL) && (connp->out_buf_size > 0)
+            && (connp->out_buf[connp->out_buf_size - 1] == CR);
+}
+
 htp_status_t htp_connp_RES_HEADERS(htp_connp_t *connp) {
     int endwithcr;
     int lfcrending = 0;
@@ -846,7 +860,7 @@ htp_status_t htp_connp_RES_HEADERS(htp_connp_t *connp) {
                 // connp->out_next_byte == LF
                 OUT_PEEK_NEXT(connp);
                 lfcrending = 0;
-                if (connp->out_next_byte == CR) {
+                if (connp->out_next_byte == CR && !htp_connp_res_lf_completes_crlf(connp)) {
                     // hanldes LF-CR sequence as end of line
                     OUT_COPY_BYTE_OR_RETURN(connp);
                     lfcrending = 1;
